@@ -11,7 +11,7 @@
 
 /*@unit
 name: mbuff.append.nonempty
-define: U_APPEND, U_NONEMPTY
+define: VERIF_MB_GHOSTCOPY, U_APPEND, U_NONEMPTY
 src: mbuff.c
 enforce: spif_mbuff_append
 backend: sat
@@ -21,7 +21,7 @@ timeout: 150
 */
 /*@unit
 name: mbuff.append.empty
-define: U_APPEND, U_EMPTY
+define: VERIF_MB_GHOSTCOPY, U_APPEND, U_EMPTY
 src: mbuff.c
 enforce: spif_mbuff_append
 backend: sat
@@ -31,7 +31,7 @@ timeout: 150
 */
 /*@unit
 name: mbuff.append_from_ptr.nonempty
-define: U_APPEND_PTR, U_NONEMPTY
+define: VERIF_MB_GHOSTCOPY, U_APPEND_PTR, U_NONEMPTY
 src: mbuff.c
 enforce: spif_mbuff_append_from_ptr
 backend: sat
@@ -41,7 +41,7 @@ timeout: 150
 */
 /*@unit
 name: mbuff.append_from_ptr.empty
-define: U_APPEND_PTR, U_EMPTY
+define: VERIF_MB_GHOSTCOPY, U_APPEND_PTR, U_EMPTY
 src: mbuff.c
 enforce: spif_mbuff_append_from_ptr
 backend: sat
